@@ -279,17 +279,6 @@ pub fn run(cfg: &Cfg, rep: &mut Rep) {
                     None => continue,
                 }
             }
-            1 if k % 16 == 5 => {
-                // anywhere in the representable range (two centuries inside the bounds), near a day boundary half of the time
-                rep.class("wd/far-range");
-                let m = 2 * NPC;
-                let c = r.range_i128(MIN_NS + m, MAX_NS - m);
-                if r.bool() {
-                    c - (c + greg_zero_ns(s)).rem_euclid(NS_D) + *r.pick(&[0i128, -1, 1, NS_D - 1])
-                } else {
-                    c
-                }
-            }
             _ => gen::rand_reading(&mut r, s, &lats[si]),
         };
         check_epoch(rep, &w, c, s, k % 8 == 0);
